@@ -1,2 +1,296 @@
-//! C08 — RESP encoding/decoding round-trips (filled in below).
+//! C08 — RESP encoding and decoding round-trip, independent of stream chunking.
+//!
+//! The encoder (`Connection::write_frame`) is async code over tokio and cannot be encoded
+//! (measured: > 20 min for a 4-byte frame).  A reference encoder `enc` is used instead; that it
+//! produces the same bytes as the real `write_frame` is validated natively on every run
+//! (replay/net `enc_diff`), which is validation of the reference model, not the deciding step.
+//! Decided here, for `b = enc(f) ++ tail` with a symbolic tail (the start of whatever follows):
+//!   (1) `check(b)` accepts exactly |enc(f)| bytes and `parse(b)` returns `f` at that position;
+//!   (2) for every symbolic cut `n < |enc(f)|`: `check(b[..n]) == Err(Incomplete)`.
+//! (1)+(2) are exactly the condition under which a "try to parse, else read more" loop returns the
+//! same frames for every segmentation of a concatenation of encodings, down to one byte.
+use super::c07::n_harness;
 use super::*;
+
+const TAIL: usize = 3;
+
+/// Fixed-capacity output buffer of the reference encoder.
+struct Out<const M: usize> {
+    b: [u8; M],
+    n: usize,
+}
+impl<const M: usize> Out<M> {
+    fn new() -> Self {
+        Out { b: [0; M], n: 0 }
+    }
+    fn put(&mut self, x: u8) {
+        self.b[self.n] = x;
+        self.n += 1;
+    }
+    fn crlf(&mut self) {
+        self.put(b'\r');
+        self.put(b'\n');
+    }
+    /// decimal of a small non-negative number (lengths, counts)
+    fn small(&mut self, v: usize) {
+        assert!(v < 100);
+        if v >= 10 {
+            self.put(b'0' + (v / 10) as u8);
+        }
+        self.put(b'0' + (v % 10) as u8);
+    }
+    fn bulk(&mut self, p: &[u8]) {
+        self.put(b'$');
+        self.small(p.len());
+        self.crlf();
+        let mut i = 0;
+        while i < p.len() {
+            self.put(p[i]);
+            i += 1;
+        }
+        self.crlf();
+    }
+    fn line(&mut self, t: u8, p: &[u8]) {
+        self.put(t);
+        let mut i = 0;
+        while i < p.len() {
+            self.put(p[i]);
+            i += 1;
+        }
+        self.crlf();
+    }
+    fn tail(&mut self) {
+        let t: [u8; TAIL] = kani::any();
+        let mut i = 0;
+        while i < TAIL {
+            self.b[self.n + i] = t[i];
+            i += 1;
+        }
+    }
+}
+
+/// (1) whole + tail, and (2) every strict prefix is Incomplete.  Returns the parsed frame.
+fn decode_contract<const M: usize>(o: &Out<M>) -> Frame {
+    let total = o.n + TAIL;
+    // (2) symbolic cut
+    // every strict prefix (the cut points are enumerated in the harness: a symbolic cut makes the
+    // length of every reader loop symbolic and symex diverge — measured)
+    let mut cut = 0;
+    while cut < o.n {
+        let mut c = Cursor::new(&o.b[..cut]);
+        let r = Frame::check(&mut c);
+        assert!(r == Err(Error::Incomplete), "a strict prefix of a valid encoding is not reported as incomplete");
+        std::mem::forget(r);
+        cut += 1;
+    }
+    // (1) whole encoding followed by the start of the next one
+    let mut c = Cursor::new(&o.b[..total]);
+    let r = Frame::check(&mut c);
+    assert!(r.is_ok(), "check rejects a valid encoding");
+    assert!(c.position() as usize == o.n, "check accepts a length different from the encoding's");
+    c.set_position(0);
+    let p = Frame::parse(&mut c);
+    assert!(c.position() as usize == o.n, "parse stops at a position different from the encoding's length");
+    match p {
+        Ok(f) => f,
+        Err(_) => {
+            assert!(false, "parse rejects a valid encoding");
+            loop {}
+        }
+    }
+}
+
+fn ascii_no_crlf<const L: usize>() -> [u8; L] {
+    let s: [u8; L] = kani::any();
+    let mut i = 0;
+    while i < L {
+        kani::assume(s[i] < 0x80 && s[i] != b'\r' && s[i] != b'\n');
+        i += 1;
+    }
+    s
+}
+
+fn simple_contract<const L: usize>(t: u8) {
+    let s = ascii_no_crlf::<L>();
+    let mut o = Out::<{ 16 }>::new();
+    o.line(t, &s);
+    o.tail();
+    let f = decode_contract(&o);
+    let got = match &f {
+        Frame::SimpleString(x) if t == b'+' => x.as_bytes(),
+        Frame::Error(x) if t == b'-' => x.as_bytes(),
+        _ => {
+            assert!(false, "wrong frame variant");
+            loop {}
+        }
+    };
+    assert!(got.len() == L, "string length differs");
+    let i: usize = kani::any();
+    kani::assume(i < L);
+    assert!(got[i] == s[i], "string content differs");
+    std::mem::forget(f);
+}
+n_harness! { 30, fn c08_simple_0() { simple_contract::<0>(b'+') } }
+n_harness! { 30, fn c08_simple_2() { simple_contract::<2>(b'+') } }
+n_harness! { 30, fn c08_error_3() { simple_contract::<3>(b'-') } }
+
+fn bulk_contract<const L: usize>() {
+    let s: [u8; L] = kani::any(); // arbitrary bytes, CR / LF / NUL included
+    let mut o = Out::<{ 20 }>::new();
+    o.bulk(&s);
+    o.tail();
+    let f = decode_contract(&o);
+    match &f {
+        Frame::BulkString(x) => {
+            assert!(x.len() == L, "bulk length differs");
+            let i: usize = kani::any();
+            kani::assume(i < L);
+            assert!(x[i] == s[i], "bulk content differs");
+        }
+        _ => assert!(false, "wrong frame variant"),
+    }
+    std::mem::forget(f);
+}
+n_harness! { 30, fn c08_bulk_0() { bulk_contract::<0>() } }
+n_harness! { 30, fn c08_bulk_2() { bulk_contract::<2>() } }
+n_harness! { 30, fn c08_bulk_4() { bulk_contract::<4>() } }
+
+n_harness! { 30, fn c08_null() {
+    let mut o = Out::<{ 12 }>::new();
+    o.put(b'$'); o.put(b'-'); o.put(b'1'); o.crlf();
+    o.tail();
+    let f = decode_contract(&o);
+    assert!(f == Frame::Null, "null does not round-trip");
+} }
+
+/// Integers, given as a canonical digit string (optional '-', no leading zero): D symbolic digits.
+fn integer_contract<const D: usize>() {
+    let neg: bool = kani::any();
+    let d: [u8; D] = kani::any();
+    let mut i = 0;
+    while i < D {
+        kani::assume(d[i] >= b'0' && d[i] <= b'9');
+        i += 1;
+    }
+    kani::assume(D == 1 || d[0] != b'0');
+    kani::assume(!(neg && D == 1 && d[0] == b'0'));
+    let mut o = Out::<{ 16 }>::new();
+    o.put(b':');
+    if neg {
+        o.put(b'-');
+    }
+    let mut val: i64 = 0;
+    let mut i = 0;
+    while i < D {
+        o.put(d[i]);
+        let x = (d[i] - b'0') as i64;
+        val = if neg { val * 10 - x } else { val * 10 + x };
+        i += 1;
+    }
+    o.crlf();
+    o.tail();
+    let f = decode_contract(&o);
+    match f {
+        Frame::Integer(x) => assert!(x == val, "integer does not round-trip"),
+        _ => assert!(false, "wrong frame variant"),
+    }
+}
+n_harness! { 30, fn c08_integer_1() { integer_contract::<1>() } }
+n_harness! { 30, fn c08_integer_4() { integer_contract::<4>() } }
+n_harness! { 30, fn c08_integer_7() { integer_contract::<7>() } }
+
+/// i64::MIN / i64::MAX and their neighbours: the 18 leading digits are concrete, the last digit and
+/// the sign are symbolic (in range).
+n_harness! { 30, fn c08_integer_limits() {
+    const PFX: [u8; 18] = *b"922337203685477580";
+    let neg: bool = kani::any();
+    let last: u8 = kani::any();
+    kani::assume(last >= b'0' && last <= if neg { b'8' } else { b'7' });
+    let mut o = Out::<{ 28 }>::new();
+    o.put(b':');
+    if neg {
+        o.put(b'-');
+    }
+    let mut i = 0;
+    while i < 18 {
+        o.put(PFX[i]);
+        i += 1;
+    }
+    o.put(last);
+    o.crlf();
+    o.tail();
+    let f = decode_contract(&o);
+    let mag: i128 = 9223372036854775800 + (last - b'0') as i128;
+    let want: i128 = if neg { -mag } else { mag };
+    match f {
+        Frame::Integer(x) => {
+            assert!(x as i128 == want, "integer near the i64 limit does not round-trip");
+            kani::cover!(x == i64::MIN, "i64::MIN round-trips");
+            kani::cover!(x == i64::MAX, "i64::MAX round-trips");
+        }
+        _ => assert!(false, "wrong frame variant"),
+    }
+} }
+
+/// Array of two bulk strings (1 and 2 arbitrary bytes) — the shape of every request and of no reply.
+n_harness! { 30, fn c08_array_bulk2() {
+    let a: [u8; 1] = kani::any();
+    let b: [u8; 2] = kani::any();
+    let mut o = Out::<{ 28 }>::new();
+    o.put(b'*'); o.small(2); o.crlf();
+    o.bulk(&a);
+    o.bulk(&b);
+    o.tail();
+    let f = decode_contract(&o);
+    match &f {
+        Frame::Array(v) => {
+            assert!(v.len() == 2, "array length differs");
+            match (&v[0], &v[1]) {
+                (Frame::BulkString(x), Frame::BulkString(y)) => {
+                    assert!(x.len() == 1 && x[0] == a[0], "first element differs");
+                    assert!(y.len() == 2 && y[0] == b[0] && y[1] == b[1], "second element differs");
+                }
+                _ => assert!(false, "wrong element variants"),
+            }
+        }
+        _ => assert!(false, "wrong frame variant"),
+    }
+    std::mem::forget(f);
+} }
+
+/// Array mixing an integer, a null and a simple string; and the empty array.
+n_harness! { 30, fn c08_array_mixed() {
+    let d: u8 = kani::any();
+    kani::assume(d >= b'0' && d <= b'9');
+    let s = ascii_no_crlf::<1>();
+    let empty: bool = kani::any();
+    let mut o = Out::<{ 28 }>::new();
+    o.put(b'*');
+    if empty {
+        o.small(0); o.crlf();
+    } else {
+        o.small(3); o.crlf();
+        o.put(b':'); o.put(d); o.crlf();
+        o.put(b'$'); o.put(b'-'); o.put(b'1'); o.crlf();
+        o.line(b'+', &s);
+    }
+    o.tail();
+    let f = decode_contract(&o);
+    match &f {
+        Frame::Array(v) => {
+            if empty {
+                assert!(v.len() == 0, "empty array does not round-trip");
+            } else {
+                assert!(v.len() == 3, "array length differs");
+                assert!(v[0] == Frame::Integer((d - b'0') as i64), "integer element differs");
+                assert!(v[1] == Frame::Null, "null element differs");
+                match &v[2] {
+                    Frame::SimpleString(x) => assert!(x.as_bytes().len() == 1 && x.as_bytes()[0] == s[0], "string element differs"),
+                    _ => assert!(false, "wrong element variant"),
+                }
+            }
+        }
+        _ => assert!(false, "wrong frame variant"),
+    }
+    std::mem::forget(f);
+} }
